@@ -19,9 +19,10 @@ Inductive spells (docdir tp : list str) : str -> Prop :=
 | Sp_abs : tp <> [] -> spells docdir tp (abs_spelling tp).
 
 Lemma name_ok_parts l : Forall name_ok l ->
-  segs_ok l /\ Forall (fun s => ~ In c_hash s) l /\ Forall (fun s => ~ In c_colon s) l.
+  segs_ok l /\ Forall (fun s => ~ In c_hash s) l /\ Forall (fun s => ~ In c_colon s) l
+  /\ Forall (fun s => ~ In 0 s) l.
 Proof.
-  intro H. repeat split; (eapply Forall_impl; [|exact H]); intros a (Ha & _ & Hh & Hc); assumption.
+  intro H. repeat split; (eapply Forall_impl; [|exact H]); intros a (Ha & _ & Hh & Hc & Hn); assumption.
 Qed.
 
 Theorem relfn2path_spells : forall srcdir docdir tp sp,
@@ -57,8 +58,15 @@ Qed.
 Lemma spells_clean docdir tp sp : Forall name_ok tp -> spells docdir tp sp ->
   ~ In c_hash sp /\ ~ In c_colon sp.
 Proof.
-  intros Ht H. destruct (name_ok_parts tp Ht) as (_ & Hh & Hc).
+  intros Ht H. destruct (name_ok_parts tp Ht) as (_ & Hh & Hc & _).
   split; eapply spelling_notin; try eassumption; discriminate.
+Qed.
+
+Lemma spells_no_nul docdir tp sp : Forall name_ok tp -> spells docdir tp sp -> has_nul sp = false.
+Proof.
+  intros Ht H. destruct (name_ok_parts tp Ht) as (_ & _ & _ & Hn).
+  unfold has_nul. destruct (mem_N 0 sp) eqn:E; [|reflexivity]. apply mem_N_In in E.
+  exfalso. revert E. eapply spelling_notin; try eassumption; discriminate.
 Qed.
 
 (* ---------- the scheme regex ---------- *)
@@ -145,7 +153,11 @@ Proof.
 Qed.
 
 Definition mklink (dest : str) (auto children : bool) : link :=
-  {| l_dest := dest; l_auto := auto; l_children := children |}.
+  {| l_dest := dest; l_auto := auto; l_children := children; l_include := None |}.
+
+(* a link inside a file pulled in by {include} :relative-docs: prefix (file in directory incdir) *)
+Definition mklink_inc (dest : str) (auto children : bool) (prefix : str) (incdir : list str) : link :=
+  {| l_dest := dest; l_auto := auto; l_children := children; l_include := Some (prefix, incdir) |}.
 
 Definition with_frag (sp : str) (frag : option str) : str :=
   match frag with None => sp | Some f => sp ++ c_hash :: f end.
@@ -192,6 +204,9 @@ Section Spellings.
   Lemma sp_loc : relfn2path (p_srcdir P) (d_dir d) sp = Inside tp.
   Proof. apply relfn2path_spells; assumption. Qed.
 
+  Lemma sp_abs : abs_path P d sp = Some (Inside tp).
+  Proof. unfold abs_path. rewrite (spells_no_nul _ _ _ Htp Hsp), sp_loc. reflexivity. Qed.
+
   (* [text](sp) / [text](sp#frag) to a source file *)
   Lemma unknown_doc : forall dn frag ch,
     is_file P (Inside tp) = true -> path2doc (p_suffixes P) (Inside tp) = Some dn ->
@@ -201,8 +216,8 @@ Section Spellings.
     rewrite render_link_is_unknown; cbn [l_dest l_auto mklink];
       [|apply startswith_hash_with_frag; [eapply spells_nonempty; eassumption|assumption]
        |apply scheme_of_with_frag; assumption|reflexivity].
-    unfold render_link_unknown. cbn [l_dest mklink]. rewrite split_dest_frag by assumption.
-    rewrite sp_loc, Hf, Hd. reflexivity.
+    unfold render_link_unknown, handle_relative_docs. cbn [l_dest l_include mklink]. rewrite split_dest_frag by assumption.
+    rewrite sp_abs, sp_loc, Hf, Hd. reflexivity.
   Qed.
 
   (* [text](sp) to a file that is not a document *)
@@ -216,9 +231,9 @@ Section Spellings.
     - rewrite render_link_is_unknown; cbn [l_dest l_auto mklink];
         [|apply (startswith_hash_with_frag sp None); [eapply spells_nonempty; eassumption|assumption]
          |apply scheme_of_nocolon; assumption|reflexivity].
-      unfold render_link_unknown. cbn [l_dest mklink].
+      unfold render_link_unknown, handle_relative_docs. cbn [l_dest l_include mklink].
       pose proof (split_dest_frag sp None Hh) as Hsd. cbn [with_frag] in Hsd. rewrite Hsd.
-      rewrite sp_loc, Hf, Hd. reflexivity.
+      rewrite sp_abs, sp_loc, Hf, Hd. reflexivity.
     - unfold collect_download. rewrite EC, sp_loc.
       unfold is_readable. cbn [is_file] in Hf. rewrite Hf. reflexivity.
   Qed.
@@ -237,21 +252,39 @@ Section Spellings.
     change (snd gen_project_prefix) with (length (s_project ++ [c_colon])).
     rewrite startswith_app, skipn_app_len.
     rewrite startswith_hash_with_frag; [|eapply spells_nonempty; eassumption|assumption].
-    rewrite split_dest_frag by assumption. rewrite sp_loc, Hd. reflexivity.
+    unfold handle_relative_docs. cbn [l_include mklink].
+    rewrite split_dest_frag by assumption. rewrite sp_abs, Hd. reflexivity.
   Qed.
 
-  (* <path:sp>, [text](path:sp) *)
+  (* <path:sp>, [text](path:sp) to an existing file *)
   Lemma path_file : forall auto ch,
-    mem_str s_path (p_url_schemes P) = false ->
+    mem_str s_path (p_url_schemes P) = false -> is_file P (Inside tp) = true ->
     render_link P d (mklink (s_path ++ c_colon :: sp) auto ch) = C_download sp sp.
   Proof.
-    intros auto ch Hu.
+    intros auto ch Hu Hf.
     rewrite (render_link_is_path P d _ sp); [|reflexivity|assumption].
-    unfold render_link_path. cbn [l_dest mklink].
+    unfold render_link_path, handle_relative_docs. cbn [l_dest l_include mklink].
     change (s_path ++ c_colon :: sp) with ((s_path ++ [c_colon]) ++ sp).
     change (fst gen_path_prefix) with (s_path ++ [c_colon]).
     change (snd gen_path_prefix) with (length (s_path ++ [c_colon])).
-    rewrite startswith_app, skipn_app_len. reflexivity.
+    rewrite startswith_app, skipn_app_len. destruct (spells_clean _ _ _ Htp Hsp) as [_ Hc].
+    rewrite (contains_css_nocolon sp Hc), sp_abs.
+    unfold is_readable. cbn [is_file] in Hf. rewrite Hf. reflexivity.
+  Qed.
+
+  (* ... and to a file that does not exist: reported when the link is rendered *)
+  Lemma path_file_missing : forall auto ch,
+    mem_str s_path (p_url_schemes P) = false -> is_readable P (Inside tp) = false ->
+    render_link P d (mklink (s_path ++ c_colon :: sp) auto ch)
+    = C_nofile (abs_str P (Inside tp)) (s_path ++ c_colon :: sp).
+  Proof.
+    intros auto ch Hu Hf. destruct (spells_clean _ _ _ Htp Hsp) as [Hh Hc].
+    rewrite (render_link_is_path P d _ sp); [|reflexivity|assumption].
+    unfold render_link_path, handle_relative_docs. cbn [l_dest l_include mklink].
+    change (s_path ++ c_colon :: sp) with ((s_path ++ [c_colon]) ++ sp).
+    change (fst gen_path_prefix) with (s_path ++ [c_colon]).
+    change (snd gen_path_prefix) with (length (s_path ++ [c_colon])).
+    rewrite startswith_app, skipn_app_len. rewrite (contains_css_nocolon sp Hc), sp_abs, Hf. reflexivity.
   Qed.
 
   Lemma collect_file : is_file P (Inside tp) = true ->
@@ -279,14 +312,20 @@ Theorem path_spellings_all : forall (P : project) (d : docrec) (tp : list str) (
         /\ collect_download P d sp = (T_dl (Inside tp), []))
   /\ (forall auto ch,
         mem_str s_path (p_url_schemes P) = false ->
-        render_link P d (mklink (s_path ++ c_colon :: sp) auto ch) = C_download sp sp
-        /\ (is_file P (Inside tp) = true -> collect_download P d sp = (T_dl (Inside tp), []))).
+        (is_file P (Inside tp) = true ->
+           render_link P d (mklink (s_path ++ c_colon :: sp) auto ch) = C_download sp sp
+           /\ collect_download P d sp = (T_dl (Inside tp), []))
+        /\ (is_readable P (Inside tp) = false ->
+           render_link P d (mklink (s_path ++ c_colon :: sp) auto ch)
+           = C_nofile (abs_str P (Inside tp)) (s_path ++ c_colon :: sp))).
 Proof.
   intros P d tp sp H1 H2 H3 H4. split; [apply sp_loc; assumption|].
   split; [intros; apply (unknown_doc P d tp sp); assumption|].
   split; [intros; apply (project_doc P d tp sp); assumption|].
   split; [intros; apply (unknown_file P d tp sp); assumption|].
-  intros auto ch Hu. split; [apply path_file; assumption|]. intro Hf. apply (collect_file P d tp sp); assumption.
+  intros auto ch Hu. split.
+  - intro Hf. split; [apply (path_file P d tp sp); assumption|apply (collect_file P d tp sp); assumption].
+  - intro Hf. apply (path_file_missing P d tp sp); assumption.
 Qed.
 
 (* the docname without extension, through docname_join *)
@@ -300,7 +339,114 @@ Proof.
   - apply docname_join_abs_spelling; assumption.
 Qed.
 
+
+(* [text](docname#anchor): the docname without extension, through docname_join, with an anchor *)
+Theorem unknown_docname_anchor : forall P d bn tdn sp frag ch td,
+  segs_ok (d_dir d) -> seg_ok bn -> d_name d = join s_slash (d_dir d ++ [bn]) ->
+  Forall name_ok tdn -> spells (d_dir d) tdn sp ->
+  is_file P (relfn2path (p_srcdir P) (d_dir d) sp) = false ->
+  find_doc (p_docs P) (join s_slash tdn) = Some td ->
+  render_link P d (mklink (with_frag sp (Some frag)) false ch) = C_doc (join s_slash tdn) (Some frag).
+Proof.
+  intros P d bn tdn sp frag ch td Hdir Hbn Hname Ht Hsp Hf Hfind.
+  destruct (spells_clean _ _ _ Ht Hsp) as [Hh Hc].
+  rewrite render_link_is_unknown; cbn [l_dest l_auto mklink];
+    [|apply startswith_hash_with_frag; [eapply spells_nonempty; eassumption|assumption]
+     |apply scheme_of_with_frag; assumption|reflexivity].
+  unfold render_link_unknown, handle_relative_docs. cbn [l_dest l_include mklink].
+  rewrite split_dest_frag by assumption. unfold abs_path. rewrite (spells_no_nul _ _ _ Ht Hsp), Hf. rewrite Hname.
+  rewrite (docname_join_spells (d_dir d) bn tdn sp Hdir Hbn (name_seg tdn Ht) Hsp). rewrite Hfind. reflexivity.
+Qed.
+
+(* ---------- links inside a file included with :relative-docs: ---------- *)
+
+Lemma last_seg_frag_ok z f : seg_ok z -> ~ In c_slash f -> seg_ok (z ++ c_hash :: f).
+Proof.
+  intros (H1 & H2 & H3 & H4) Hf. destruct z as [|c z]; [congruence|]. repeat split.
+  - discriminate.
+  - intro E. apply (f_equal (@length N)) in E. rewrite app_length in E. cbn in E. lia.
+  - intro E. cbn in E. inversion E as [[E1 E2]]. destruct z as [|c2 z]; [discriminate|].
+    cbn in E2. inversion E2 as [[E3 E4]]. destruct z; discriminate.
+  - intro Hin. apply in_app_or in Hin as [Hin|[Hin|Hin]]; [contradiction|discriminate|contradiction].
+Qed.
+
+Lemma with_frag_rel_spelling k r tf z f :
+  with_frag (rel_spelling k r (tf ++ [z])) (Some f) = rel_spelling k r (tf ++ [z ++ c_hash :: f]).
+Proof.
+  unfold with_frag, rel_spelling. rewrite !app_assoc. apply join_last_append.
+Qed.
+
+(* The destination written in the included file - a spelling of tp relative to the included file's
+   directory cm ++ r - is rewritten into a spelling of the same file relative to the including
+   document's directory; a #fragment is carried along unchanged. *)
+Theorem relative_docs_rewrite : forall P d l prefix cm r t k frag,
+  segs_ok (p_srcdir P) -> p_srcdir P <> [] -> Forall name_ok (d_dir d) ->
+  segs_ok cm -> segs_ok r -> segs_ok t -> t <> [] ->
+  (forall x, d_dir d <> (cm ++ t) ++ x) ->
+  (match frag with Some f => ~ In c_slash f | None => True end) ->
+  l_include l = Some (prefix, cm ++ r) ->
+  startswith (with_frag (rel_spelling k r t) frag) prefix = true ->
+  exists sp', spells (d_dir d) (cm ++ t) sp'
+    /\ handle_relative_docs P d l (with_frag (rel_spelling k r t) frag) = with_frag sp' frag.
+Proof.
+  intros P d l prefix cm r t k frag Hs Hsne Hd Hc Hr Ht Hne Hnp Hfr Hinc Hpre.
+  unfold handle_relative_docs. rewrite Hinc, Hpre. unfold abs_dir_str.
+  destruct frag as [f|].
+  - destruct (exists_last Hne) as (tf & z & Et). subst t.
+    assert (Hz : seg_ok z) by (apply segs_ok_app in Ht as [_ Ht]; inversion Ht; assumption).
+    assert (Htf : segs_ok tf) by (apply segs_ok_app in Ht; tauto).
+    rewrite with_frag_rel_spelling.
+    assert (Ht2 : segs_ok (tf ++ [z ++ c_hash :: f])).
+    { apply segs_ok_app. split; [assumption|]. constructor; [apply last_seg_frag_ok; assumption|constructor]. }
+    assert (Hnp2 : forall x, d_dir d <> (cm ++ tf ++ [z ++ c_hash :: f]) ++ x).
+    { intros x E. assert (Hin : In (z ++ c_hash :: f) (d_dir d)).
+      { rewrite E. apply in_or_app. left. apply in_or_app. right. apply in_or_app. right. left. reflexivity. }
+      rewrite Forall_forall in Hd. destruct (Hd _ Hin) as (_ & _ & Hh & _). apply Hh. apply in_or_app. right. left. reflexivity. }
+    destruct (relpath_rewrite (p_srcdir P) cm r (tf ++ [z ++ c_hash :: f]) (d_dir d) k Hs Hsne Hc Hr Ht2
+                (ltac:(destruct tf; discriminate)) (name_seg _ Hd) Hnp2) as (c' & r' & t' & E1 & E2 & Hne' & HR).
+    rewrite HR.
+    destruct (exists_last Hne') as (t'' & z' & Et'). subst t'.
+    rewrite !app_assoc in E2. apply app_inj_tail in E2 as [E2 Ez]. subst z'.
+    exists (rel_spelling 0 r' (t'' ++ [z])). split.
+    + apply (Sp_rel (d_dir d) (cm ++ tf ++ [z]) c' r' (t'' ++ [z]) 0); [exact E1| |destruct t''; discriminate].
+      rewrite !app_assoc. f_equal. exact E2.
+    + symmetry. apply with_frag_rel_spelling.
+  - cbn [with_frag] in *.
+    destruct (relpath_rewrite (p_srcdir P) cm r t (d_dir d) k Hs Hsne Hc Hr Ht Hne (name_seg _ Hd) Hnp)
+      as (c' & r' & t' & E1 & E2 & Hne' & HR).
+    rewrite HR. exists (rel_spelling 0 r' t'). split; [|reflexivity].
+    apply (Sp_rel (d_dir d) (cm ++ t) c' r' t' 0); assumption.
+Qed.
+
+(* ... hence the link of the included file reaches the same document as it would from the included
+   file's own location (compare [unknown_doc] for a document whose directory is cm ++ r) *)
+Theorem relative_docs_same_target : forall P d prefix cm r t k frag ch dn,
+  segs_ok (p_srcdir P) -> p_srcdir P <> [] -> Forall name_ok (d_dir d) ->
+  segs_ok cm -> segs_ok r -> Forall name_ok (cm ++ t) -> t <> [] ->
+  (forall x, d_dir d <> (cm ++ t) ++ x) ->
+  (match frag with Some f => ~ In c_slash f | None => True end) ->
+  startswith (with_frag (rel_spelling k r t) frag) prefix = true ->
+  is_file P (Inside (cm ++ t)) = true -> path2doc (p_suffixes P) (Inside (cm ++ t)) = Some dn ->
+  render_link P d (mklink_inc (with_frag (rel_spelling k r t) frag) false ch prefix (cm ++ r)) = C_doc dn frag.
+Proof.
+  intros P d prefix cm r t k frag ch dn Hs Hsne Hd Hc Hr Htp Hne Hnp Hfr Hpre Hf Hdoc.
+  assert (Ht : Forall name_ok t) by (apply Forall_app in Htp; tauto).
+  assert (Hsp0 : spells (cm ++ r) (cm ++ t) (rel_spelling k r t)) by (apply (Sp_rel _ _ cm r t k); auto).
+  destruct (spells_clean _ _ _ Htp Hsp0) as [Hh0 Hc0].
+  rewrite render_link_is_unknown; cbn [l_dest l_auto mklink_inc];
+    [|apply startswith_hash_with_frag; [exact (spells_nonempty _ _ _ Htp Hsp0)|assumption]
+     |apply scheme_of_with_frag; assumption|reflexivity].
+  destruct (relative_docs_rewrite P d (mklink_inc (with_frag (rel_spelling k r t) frag) false ch prefix (cm ++ r))
+              prefix cm r t k frag Hs Hsne Hd Hc Hr (name_seg _ Ht) Hne Hnp Hfr eq_refl Hpre) as (sp' & Hsp' & HR).
+  unfold render_link_unknown. cbn [l_dest mklink_inc] in *. rewrite HR.
+  destruct (spells_clean _ _ _ Htp Hsp') as [Hh Hcc].
+  rewrite split_dest_frag by assumption.
+  unfold abs_path. rewrite (spells_no_nul _ _ _ Htp Hsp').
+  rewrite (relfn2path_spells _ _ _ _ Hs (name_seg _ Hd) Htp Hsp'). rewrite Hf, Hdoc. reflexivity.
+Qed.
+
 (* ---------- the resolver ---------- *)
+
 
 Lemma log_missing_le1 P t : (count_missing (log_missing P t) <= 1)%nat.
 Proof. unfold log_missing. destruct (nonempty t && mem_str t (p_nitpick P)); cbn; lia. Qed.
@@ -311,30 +457,65 @@ Proof. intro H. unfold log_missing. rewrite H, andb_false_r. reflexivity. Qed.
 (* doc.md#slug is looked up in the slug table of the TARGET document *)
 Theorem anchor_lookup : forall P from explicit dn td slug,
   find_doc (p_docs P) dn = Some td -> slug <> [] ->
-  (forall e, find_slug (d_slugs td) slug = Some e ->
+  (forall e, find_slug (d_slugs td) slug = Some e -> sl_title e <> [] ->
      resolve_myst_ref_doc P from explicit dn (Some slug)
-     = mk (make_refnode from dn (sl_id e)) (if explicit then X_children else X_str (sl_title e)) [])
+     = mk (make_refnode (p_dirhtml P) from dn (sl_id e)) (if explicit then X_children else X_str (sl_title e)) [])
   /\ (find_slug (d_slugs td) slug = None ->
      resolve_myst_ref_doc P from explicit dn (Some slug)
-     = mk (make_refnode from dn slug) (if explicit then X_children else X_str []) (log_missing P slug)).
+     = mk (make_refnode (p_dirhtml P) from dn slug)
+          (if explicit then X_children else X_lit (dn ++ s_hash ++ slug)) (log_missing P slug)).
 Proof.
   intros P from explicit dn td slug Hd Hs.
   assert (Hn : nonempty slug = true) by (destruct slug; [congruence|reflexivity]).
-  split; [intros e He|intro He]; unfold resolve_myst_ref_doc; rewrite Hd, Hn, He; reflexivity.
+  split; [intros e He Ht|intro He]; unfold resolve_myst_ref_doc, doc_target_text; rewrite Hd, Hn, He; [|reflexivity].
+  destruct (sl_title e) eqn:ET; [congruence|reflexivity].
 Qed.
 
-Lemma make_refnode_other from to tid : from <> to -> tid <> [] ->
-  make_refnode from to tid = T_uri (get_relative_uri from to ++ s_hash ++ tid).
+Lemma make_refnode_other b from to tid : from <> to -> tid <> [] ->
+  make_refnode b from to tid = T_uri (get_relative_uri b from to ++ s_hash ++ tid).
 Proof.
   intros H1 H2. unfold make_refnode. apply str_eqb_neq in H1. rewrite H1.
   destruct tid; [congruence|reflexivity].
 Qed.
 
-Lemma make_refnode_same from tid : tid <> [] -> make_refnode from from tid = T_refid tid.
+Lemma make_refnode_same b from tid : tid <> [] -> make_refnode b from from tid = T_refid tid.
 Proof. intro H. unfold make_refnode. rewrite str_eqb_refl. destruct tid; [congruence|reflexivity]. Qed.
 
-Lemma make_refnode_page from to : make_refnode from to [] = T_uri (get_relative_uri from to).
+Lemma make_refnode_page b from to : make_refnode b from to [] = T_uri (get_relative_uri b from to).
 Proof. unfold make_refnode. rewrite andb_false_r. reflexivity. Qed.
+
+Lemma is_file_readable P loc : is_file P loc = true -> is_readable P loc = true.
+Proof. destruct loc as [rel|abs]; cbn [is_file is_readable]; [intro H; rewrite H; reflexivity|discriminate]. Qed.
+
+(* a download link that reaches Sphinx's collector always finds its file (or is remote) *)
+Lemma download_resolvable P d l rt shown : render_link P d l = C_download rt shown ->
+  contains rt s_css = true \/ is_readable P (relfn2path (p_srcdir P) (d_dir d) rt) = true.
+Proof.
+  unfold render_link.
+  destruct (startswith (l_dest l) s_hash); [discriminate|].
+  destruct (match scheme_of (l_dest l) with Some s => mem_str s (p_url_schemes P) | None => false end); [discriminate|].
+  destruct (opt_str_eqb (scheme_of (l_dest l)) s_inv); [discriminate|].
+  destruct (opt_str_eqb (scheme_of (l_dest l)) s_path).
+  { unfold render_link_path.
+    set (dest := handle_relative_docs P d l _).
+    destruct (contains dest s_css) eqn:EC; [intro H; inversion H; subst; left; exact EC|].
+    unfold abs_path. destruct (has_nul dest); [discriminate|].
+    destruct (is_readable P (relfn2path (p_srcdir P) (d_dir d) dest)) eqn:ER; [|discriminate].
+    intro H. inversion H; subst. right. exact ER. }
+  destruct (opt_str_eqb (scheme_of (l_dest l)) s_project).
+  { unfold render_link_project.
+    match goal with |- (if ?c then _ else _) = _ -> _ => destruct c; [discriminate|] end.
+    destruct (split_dest _) as [pd pid].
+    destruct (abs_path P d pd); [|discriminate].
+    destruct (path2doc _ _); discriminate. }
+  destruct (l_auto l); [discriminate|].
+  unfold render_link_unknown. destruct (split_dest _) as [pd pid].
+  unfold abs_path. destruct (has_nul pd).
+  - destruct pid; [destruct (find_doc _ _)|]; discriminate.
+  - destruct (is_file P (relfn2path (p_srcdir P) (d_dir d) pd)) eqn:EF.
+    + destruct (path2doc _ _); [discriminate|]. intro H. inversion H; subst. right. apply is_file_readable. exact EF.
+    + destruct pid; [destruct (find_doc _ _)|]; discriminate.
+Qed.
 
 Section ResolverFacts.
   Variable std_objects : str -> list cand.
@@ -387,24 +568,27 @@ Section ResolverFacts.
 
   (* empty text: the title of the target *)
   Theorem text_title_doc : forall P from dn td,
-    find_doc (p_docs P) dn = Some td ->
+    find_doc (p_docs P) dn = Some td -> d_title td <> [] ->
     o_txt (resolve_myst_ref_doc P from false dn None) = X_str (d_title td)
     /\ o_txt (resolve_myst_ref_doc P from false dn (Some [])) = X_str (d_title td).
-  Proof. intros P from dn td H. unfold resolve_myst_ref_doc. rewrite H. split; reflexivity. Qed.
+  Proof.
+    intros P from dn td H Ht. unfold resolve_myst_ref_doc. rewrite H. cbn [nonempty is_nil negb o_txt mk].
+    destruct (d_title td); [congruence|]. split; reflexivity.
+  Qed.
 
   Theorem text_title_section : forall P from dn td slug e,
-    find_doc (p_docs P) dn = Some td -> slug <> [] -> find_slug (d_slugs td) slug = Some e ->
+    find_doc (p_docs P) dn = Some td -> slug <> [] -> find_slug (d_slugs td) slug = Some e -> sl_title e <> [] ->
     o_txt (resolve_myst_ref_doc P from false dn (Some slug)) = X_str (sl_title e).
   Proof.
-    intros P from dn td slug e Hd Hs He.
-    destruct (anchor_lookup P from false dn td slug Hd Hs) as [H1 _]. rewrite (H1 e He). reflexivity.
+    intros P from dn td slug e Hd Hs He Ht.
+    destruct (anchor_lookup P from false dn td slug Hd Hs) as [H1 _]. rewrite (H1 e He Ht). reflexivity.
   Qed.
 
   Theorem text_title_docname : forall P from t td,
     resolve_ref_nested P from false t = None ->
     find_doc (p_docs P) (docname_join from t) = Some td -> d_title td <> [] ->
     o_txt (res_any P from false t) = X_str (d_title td)
-    /\ o_tgt (res_any P from false t) = make_refnode from (docname_join from t) [].
+    /\ o_tgt (res_any P from false t) = make_refnode (p_dirhtml P) from (docname_join from t) [].
   Proof.
     intros P from t td Hr Hd Ht. unfold resolve_any, any_candidates, resolve_doc_nested.
     rewrite Hr, Hd. cbn [opt_list app o_txt o_tgt mk c_txt c_tgt ensure_content].
@@ -414,7 +598,7 @@ Section ResolverFacts.
   Theorem text_title_label : forall P from t e sect,
     find_label (p_labels P) (lower t) = Some e -> lb_doc e <> [] -> lb_sect e = Some sect -> sect <> [] ->
     o_txt (res_any P from false t) = X_str sect
-    /\ o_tgt (res_any P from false t) = make_refnode from (lb_doc e) (lb_id e).
+    /\ o_tgt (res_any P from false t) = make_refnode (p_dirhtml P) from (lb_doc e) (lb_id e).
   Proof.
     intros P from t e sect Hl Hd Hs Hne. unfold resolve_any, any_candidates, resolve_ref_nested.
     rewrite Hl, Hs. destruct (lb_doc e) eqn:ED; [congruence|].
@@ -464,19 +648,17 @@ Section ResolverFacts.
     | C_url _ | C_inv => False
     end.
 
-  Definition is_download (c : cls) : bool := match c with C_download _ _ => true | _ => false end.
-
-  (* exactly one xref_missing iff unresolved - for every route except download links *)
-  Theorem missing_once_partial : forall P d l,
-    p_nitpick P = [] -> is_download (render_link P d l) = false ->
+  (* exactly one xref_missing iff unresolved - on every route *)
+  Theorem missing_once : forall P d l,
+    p_nitpick P = [] ->
     (unresolved P d l -> count_missing (o_warns (run P d l)) = 1%nat)
     /\ (~ unresolved P d l -> count_missing (o_warns (run P d l)) = 0%nat).
   Proof.
-    intros P d l Hnit Hdl.
+    intros P d l Hnit.
     assert (Hlog : forall t, log_missing P t = [W_missing t]).
     { intro t. apply log_missing_plain. rewrite Hnit. reflexivity. }
     unfold unresolved, run_link.
-    destruct (render_link P d l) as [u|href| |dn tid|t|rt shown|a u]; cbn [o_warns mk is_download] in *.
+    destruct (render_link P d l) as [u|href| |dn tid|t|rt shown|a u] eqn:ER; cbn [o_warns mk] in *.
     - split; [intros []|reflexivity].
     - unfold resolve_anchor, resolve_any.
       destruct (find_local (d_local d) (tl href)) as [e|].
@@ -506,7 +688,10 @@ Section ResolverFacts.
         * split; [intros (_ & H); discriminate|reflexivity].
         * rewrite Hlog. split; [reflexivity|intro H; exfalso; apply H; split; reflexivity].
       + cbn [o_warns mk]. split; [intros (H & _); discriminate|destruct rest; reflexivity].
-    - discriminate.
+    - destruct (download_resolvable P d l rt shown ER) as [HR|HR].
+      + split; [intros (H & _); congruence|]. intros _. unfold collect_download. rewrite HR. reflexivity.
+      + split; [intros (_ & H); congruence|]. intros _. unfold collect_download.
+        destruct (contains rt s_css); [reflexivity|]. rewrite HR. reflexivity.
     - split; [reflexivity|intro H; exfalso; apply H; exact I].
   Qed.
 
@@ -520,19 +705,19 @@ Section ResolverFacts.
 
   Theorem missing_doc : forall P from ex dn tid,
     find_doc (p_docs P) dn = None -> mem_str dn (p_nitpick P) = false ->
-    resolve_myst_ref_doc P from ex dn tid = mk T_bare (if ex then X_children else X_none) [W_missing dn].
+    resolve_myst_ref_doc P from ex dn tid = mk T_bare (if ex then X_children else X_lit dn) [W_missing dn].
   Proof.
     intros P from ex dn tid Hd Hn. unfold resolve_myst_ref_doc. rewrite Hd, (log_missing_plain P dn Hn). reflexivity.
   Qed.
 End ResolverFacts.
 
-(* ---------- the path: scheme does not warn with xref_missing (open finding) ---------- *)
+(* ---------- <path:nofile.txt>: one xref_missing since the repair (was: only Sphinx's download.not_readable) ---------- *)
 
 Definition wit_project : project :=
   {| p_srcdir := [[115; 114; 99]]; p_suffixes := [[46; 114; 115; 116]; [46; 109; 100]];
      p_docs := [{| d_name := [105; 110; 100; 101; 120]; d_dir := []; d_title := [73]; d_slugs := []; d_local := [] |}];
      p_labels := []; p_files := [[[105; 110; 100; 101; 120; 46; 109; 100]]];
-     p_nitpick := []; p_url_schemes := [] |}.
+     p_nitpick := []; p_url_schemes := []; p_dirhtml := false |}.
 
 Definition wit_doc : docrec :=
   {| d_name := [105; 110; 100; 101; 120]; d_dir := []; d_title := [73]; d_slugs := []; d_local := [] |}.
@@ -541,11 +726,47 @@ Definition wit_doc : docrec :=
 Definition wit_link : link :=
   mklink (s_path ++ c_colon :: [110; 111; 102; 105; 108; 101; 46; 116; 120; 116]) true true.
 
-Theorem missing_once_path_refuted :
-  exists P d l,
-    p_nitpick P = [] /\ unresolved no_cands no_cands no_cand P d l
-    /\ count_missing (o_warns (run_link_plain P d l)) = 0%nat
-    /\ o_warns (run_link_plain P d l) = [W_unreadable].
+Theorem missing_once_path_witness :
+  unresolved no_cands no_cands no_cand wit_project wit_doc wit_link
+  /\ count_missing (o_warns (run_link_plain wit_project wit_doc wit_link)) = 1%nat.
+Proof. split; vm_compute; [exact I|reflexivity]. Qed.
+
+(* ---------- the premises are needed: witnesses outside them ---------- *)
+
+(* relative_uri round trip fails when the target "URI" is not normal: a ".." segment, an empty
+   segment, a '#' inside a segment (the real sphinx.util.osutil.relative_uri behaves the same:
+   correspondence bucket pathfn:exhaustive) *)
+Theorem roundtrip_premise_refuted :
+  (exists from to, from <> [] /\ to <> [] /\ In s_dotdot to /\
+     resolve_ref (join s_slash from) (relative_uri (join s_slash from) (join s_slash to)) <> join s_slash to)
+  /\ (exists from to, from <> [] /\ to <> [] /\ In [] (removelast to) /\
+     resolve_ref (join s_slash from) (relative_uri (join s_slash from) (join s_slash to)) <> join s_slash to)
+  /\ (exists from to, from <> [] /\ to <> [] /\ (exists s, In s to /\ In c_hash s) /\
+     resolve_ref (join s_slash from) (relative_uri (join s_slash from) (join s_slash to)) <> join s_slash to).
 Proof.
-  exists wit_project, wit_doc, wit_link. repeat split; vm_compute; reflexivity.
+  split; [|split].
+  - exists [[120]], [[97]; s_dotdot; [98]].
+    split; [discriminate|split; [discriminate|split; [right; left; reflexivity|vm_compute; discriminate]]].
+  - exists [[120]], [[97]; []; [98]].
+    split; [discriminate|split; [discriminate|split; [right; left; reflexivity|vm_compute; discriminate]]].
+  - exists [[120]], [[97; 35; 98]].
+    split; [discriminate|split; [discriminate|split; [|vm_compute; discriminate]]].
+    exists [97; 35; 98]. split; [left; reflexivity|right; left; reflexivity].
+Qed.
+
+(* a directory literally named "\" breaks the spelling theorem (Sphinx's relfn2path treats a first
+   component '\' like a leading '/'): name_ok excludes it *)
+Theorem spelling_premise_refuted :
+  exists srcdir docdir tp sp, segs_ok srcdir /\ segs_ok docdir /\ segs_ok tp /\ spells docdir tp sp
+    /\ relfn2path srcdir docdir sp <> Inside tp.
+Proof.
+  exists [[115]], [], [s_bslash; [120]], (rel_spelling 0 [] [s_bslash; [120]]).
+  assert (H1 : seg_ok [115]) by (repeat split; try discriminate; intros [H|[]]; discriminate).
+  assert (H2 : seg_ok s_bslash) by (repeat split; try discriminate; intros [H|[]]; discriminate).
+  assert (H3 : seg_ok [120]) by (repeat split; try discriminate; intros [H|[]]; discriminate).
+  split; [constructor; [exact H1|constructor]|].
+  split; [constructor|].
+  split; [constructor; [exact H2|constructor; [exact H3|constructor]]|].
+  split; [apply (Sp_rel [] [s_bslash; [120]] [] [] [s_bslash; [120]] 0); [reflexivity|reflexivity|discriminate]|].
+  vm_compute. discriminate.
 Qed.
